@@ -45,7 +45,7 @@ struct Dict {
     source_checksum: Vec<u8>, source_total_size: u64,
     params: Option<[u64; 6]>,          // bits, min, max, window, hash_length, algorithm
     compression: Option<(u64, u64)>,   // type, level
-    rebuild_order: Vec<u64>, descriptors: Vec<Desc>,
+    rebuild_order: Vec<u64>, descriptors: Vec<Desc>, metadata: Vec<(Vec<u8>, Vec<u8>)>,
 }
 fn varint(b: &[u8], i: &mut usize) -> u64 { let mut v = 0u64; let mut s = 0; loop { let x = b[*i]; *i += 1; v |= ((x & 0x7f) as u64) << s; if x & 0x80 == 0 { return v; } s += 7; } }
 fn fields(b: &[u8]) -> Vec<(u64, u64, Vec<u8>)> {   // (field number, varint value, bytes payload)
@@ -70,6 +70,7 @@ fn decode_dict(b: &[u8]) -> Dict {
             5 => { let mut t = (0, 0); for (ff, vv, _) in fields(&p) { if ff == 2 { t.0 = vv; } if ff == 3 { t.1 = vv; } } d.compression = Some(t); }
             6 => { if p.is_empty() { d.rebuild_order.push(v); } else { let mut i = 0; while i < p.len() { d.rebuild_order.push(varint(&p, &mut i)); } } }
             7 => { let mut c = Desc::default(); for (ff, vv, pp) in fields(&p) { match ff { 1 => c.checksum = pp, 3 => c.archive_size = vv, 4 => c.archive_offset = vv, 5 => c.source_size = vv, _ => {} } } d.descriptors.push(c); }
+            8 => { let mut kv = (vec![], vec![]); for (ff, _vv, pp) in fields(&p) { if ff == 1 { kv.0 = pp; } else if ff == 2 { kv.1 = pp; } } d.metadata.push(kv); }
             _ => {}
         }
     }
@@ -119,6 +120,7 @@ fn judge(kind: &str, label: &str, archive: &[u8], source: &[u8], expected_chunks
         let want: Vec<u64> = exp.iter().map(|c| c.len() as u64).collect();
         if got != want { fail("chunk sizes differ from the requested fixed-size chunking", format!("{:?} vs {:?}", &got[..got.len().min(8)], &want[..want.len().min(8)])); }
     }
+    if archive.len() as u64 > hl as u64 + next { fail("the file extends beyond the end of the last stored chunk", format!("file {} bytes, header {} + stored {}", archive.len(), hl, next)); }
     // stored bytes of raw chunks (complete files only: see DESIGN.md F4 for the CLI's unflushed temp file)
     if archive.len() as u64 == hl as u64 + next {
         let mut pos = 0usize; let mut done = vec![false; d.descriptors.len()];
@@ -206,6 +208,48 @@ fn c11_cli_writer() {
         }
     }
     println!("COMPANION-OK cases={}", cases);
+}
+
+#[test]
+fn c11_cli_metadata_and_overwrite() {
+    let dir = Tmp::new("c11m");
+    let mut rng = Rng(0xc11c_0000_feed_0003);
+    let source = block(&mut rng, 9000, true, 9);
+    let src = dir.path("m.src");
+    std::fs::write(&src, &source).unwrap();
+    // binary (non UTF-8) metadata value from a file, plus a string value and an empty one
+    let bin: Vec<u8> = (0..264u32).map(|i| (i * 7 % 256) as u8).chain([0xff, 0xfe, 0x00, 0x80]).collect();
+    let binf = dir.path("meta.bin");
+    std::fs::write(&binf, &bin).unwrap();
+    let out = dir.path("m.cba");
+    // pre-existing, much longer output file: --force-create must not leave its tail behind
+    std::fs::write(&out, vec![0x5au8; 300_000]).unwrap();
+    let mut archive = vec![];
+    for _ in 0..6 {
+        let st = Command::new(BITA).arg("compress").arg("-i").arg(&src).args(["--fixed-size", "4096", "--compression", "none", "--force-create",
+            "--metadata-value", "greeting", "hello wörld", "--metadata-value", "empty", ""]).arg("--metadata-file").arg("blob").arg(&binf).arg(&out).output().unwrap();
+        if !st.status.success() { witness("C11", "bita compress --force-create over an existing file failed", String::from_utf8_lossy(&st.stderr).into_owned()); }
+        archive = std::fs::read(&out).unwrap();
+        let dsz = u64::from_le_bytes(archive[6..14].try_into().unwrap()) as usize;
+        let total: u64 = decode_dict(&archive[14..14 + dsz]).descriptors.iter().map(|c| c.archive_size).sum();
+        if archive.len() as u64 >= (14 + dsz + 72) as u64 + total { break; }     // not the short file of F4
+    }
+    let fixed: Vec<Vec<u8>> = source.chunks(4096).map(|c| c.to_vec()).collect();
+    judge("C11", "CLI writer, --force-create over a longer existing file, with metadata", &archive, &source, Some(fixed), 64, Some([0, 0, 4096, 0, 64, 2]), (0, 0));
+    // recorded metadata (independent decoder) and what `bita info --metadata-key` reports back, byte for byte
+    let dsz = u64::from_le_bytes(archive[6..14].try_into().unwrap()) as usize;
+    let d = decode_dict(&archive[14..14 + dsz]);
+    let want: Vec<(&str, Vec<u8>)> = vec![("blob", bin.clone()), ("empty", vec![]), ("greeting", "hello wörld".as_bytes().to_vec())];
+    for (k, v) in &want {
+        match d.metadata.iter().find(|(kk, _)| kk == k.as_bytes()) {
+            Some((_, vv)) if vv == v => {}
+            other => witness("C11", "requested metadata is not recorded verbatim", format!("key {} recorded {:?}", k, other.map(|(_, v)| v.len()))),
+        }
+        let o = Command::new(BITA).arg("info").arg("--metadata-key").arg(k).arg(&out).output().unwrap();
+        if !o.status.success() || o.stdout != *v { witness("C11", "bita info --metadata-key does not report the recorded value verbatim", format!("key {}: {} bytes reported, {} recorded", k, o.stdout.len(), v.len())); }
+    }
+    if d.metadata.len() != want.len() { witness("C11", "metadata entries recorded differ from the requested ones", format!("{}", d.metadata.len())); }
+    println!("COMPANION-OK cases={}", 1 + want.len());
 }
 
 fn clone_cli(dir: &Tmp, archive: &Path, extra: &[&str], tag: &str) -> (bool, Option<Vec<u8>>) {
